@@ -3,7 +3,7 @@
    visitor loops (push per element; overwrite / truncate / append in place) are not modelled in Coq:
    they are tied by the harness run with a recording serializer and scripted SeqAccess. *)
 From Coq Require Import ZArith List String Bool Lia.
-From MV Require Import Ast Eval Scalar Machine Equiv Model.
+From MV Require Import Ast Eval Scalar Machine EquivDefs EquivSerde Model.
 From MV.Gen Require Import AstGen.
 From MV.Proofs Require Import Arith.
 Import ListNotations.
